@@ -22,7 +22,7 @@ ENGINE = "policy"
 TIERS = {
     # MaxLen of the design-level exploration, number / max length of random schedules, parallel trace validators
     "quick": dict(maxlen=4, nrand=1500, randlen=20, parts=8, mc_timeout=900),
-    "thorough": dict(maxlen=6, nrand=20000, randlen=40, parts=12, mc_timeout=2400),
+    "thorough": dict(maxlen=6, nrand=10000, randlen=40, parts=12, mc_timeout=2400),
 }
 
 
